@@ -1,4 +1,188 @@
-import DDV.Gen.Lemmas.Tree
+/-
+  C15 — Enum analysis rejects ill-formed enums and grants infallibility only when total.
+-/
+import DDV.Gen.Lemmas.Enum
+
 namespace DDV.Props.C15
-theorem placeholder : True := trivial
+open DDV.Gen
+set_option linter.unusedVariables false
+set_option linter.unusedSimpArgs false
+
+/-- The property's acceptance conditions for an inline enum on a field of `w` bits. -/
+structure EnumOk (w : Nat) (base : BaseType) (e : Enum) (useTry : Bool) : Prop where
+  /-- it has variants -/
+  nonempty : e.variants ≠ []
+  /-- no two variants active under the same cfg resolve to the same number -/
+  distinct : ((specNumbers e.variants none).zip (e.variants.map (·.cfg))).Nodup
+  /-- every number fits the field's width -/
+  fits : ∀ n ∈ specNumbers e.variants none, n ≤ 2 ^ w - 1
+  /-- … and is not negative on an unsigned field -/
+  nonneg : base ≠ .int → ∀ n ∈ specNumbers e.variants none, 0 ≤ n
+  /-- at most one default and at most one catch-all -/
+  oneDefault : countDefault e.variants ≤ 1
+  oneCatchAll : countCatchAll e.variants ≤ 1
+  /-- without `try`: a default, a catch-all, or a variant for every bit pattern -/
+  total : useTry = true ∨ hasFallback e.variants = true ∨
+          ∀ v : Nat, (v : Int) ≤ 2 ^ w - 1 → (v : Int) ∈ specNumbers e.variants none
+
+/-- **Numbering.** Implicit numbering starts at 0 and continues one above the previous variant,
+    whatever that variant's kind — `specNumbers` *is* that rule; the analysis assigns exactly these
+    numbers, and the second, independent numbering done when the enum is emitted agrees with it on
+    every variant list. -/
+theorem analysis_numbering (vs : List EnumVariant) :
+    (assignValues vs none).2.map (·.1) = specNumbers vs none :=
+  assignValues_numbers vs none
+
+theorem numbering_agree (vs : List EnumVariant) :
+    (numberVariants (assignValues vs none).1 none).map (·.number) = specNumbers vs none :=
+  DDV.Gen.numbering_agree vs none
+
+theorem find_none_iff {α : Type} (p : α → Bool) (l : List α) :
+    l.find? p = none ↔ ∀ x ∈ l, p x = false := by
+  rw [List.find?_eq_none]
+  constructor
+  · intro h x hx; cases hp : p x <;> simp_all
+  · intro h x hx; simp [h x hx]
+
+/-- **C15, acceptance.** For every field narrower than 127 bits (beyond that the pass panics on
+    `1 << bits`), the analysis accepts an inline enum if and only if it is well formed in the
+    property's sense. -/
+theorem enum_accept_iff (objName : String) (f : Field) (e : Enum) (useTry : Bool) (hw : f.width < 127) :
+    isOk (checkEnum objName f e useTry) ↔ EnumOk f.width f.base e useTry := by
+  unfold checkEnum isOk
+  have h1 : ¬ f.width ≥ 128 := by omega
+  have h2 : ¬ f.width = 127 := by omega
+  simp only [h1, h2, if_false]
+  have hnum := assignValues_numbers e.variants none
+  have hkeys := assignValues_keys e.variants none
+  generalize hseen : (assignValues e.variants none).2 = seen at hnum hkeys
+  by_cases hne : e.variants.isEmpty = true
+  · simp only [hne, if_true]
+    constructor
+    · intro ⟨a, ha⟩; cases ha
+    · intro h; exact absurd (List.isEmpty_iff.1 hne) h.nonempty
+  · simp only [hne, if_false]
+    have hne' : e.variants ≠ [] := fun h => hne (List.isEmpty_iff.2 h)
+    by_cases hd : (duplicatesBy dupKey seen [] []).isEmpty = true
+    · have hdist : ((specNumbers e.variants none).zip (e.variants.map (·.cfg))).Nodup := by
+        have := (duplicatesBy_nil_iff dupKey seen []).1 (List.isEmpty_iff.1 hd)
+        rw [← hkeys]; exact this.2
+      simp only [hd, Bool.not_true, Bool.false_eq_true, if_false]
+      cases hhi : seen.find? (fun x => decide (x.1 > 2 ^ f.width - 1)) with
+      | some x =>
+        obtain ⟨v, name, cfg⟩ := x
+        simp only
+        constructor
+        · intro ⟨a, ha⟩; cases ha
+        · intro h
+          have hx := List.find?_some hhi
+          have hm := List.mem_of_find?_eq_some hhi
+          have : v ∈ specNumbers e.variants none := by
+            rw [← hnum]; exact List.mem_map.2 ⟨_, hm, rfl⟩
+          have := h.fits v this
+          simp only [gt_iff_lt, decide_eq_true_eq] at hx
+          omega
+      | none =>
+        have hfits : ∀ n ∈ specNumbers e.variants none, n ≤ 2 ^ f.width - 1 := by
+          intro n hn
+          rw [← hnum] at hn
+          obtain ⟨x, hx, rfl⟩ := List.mem_map.1 hn
+          have := (find_none_iff _ seen).1 hhi x hx
+          simp only [gt_iff_lt, decide_eq_false_iff_not, Int.not_lt] at this
+          exact this
+        simp only
+        cases hlo : (if f.base != BaseType.int then seen.find? (fun x => decide (x.1 < 0)) else none) with
+        | some x =>
+          obtain ⟨v, name, cfg⟩ := x
+          simp only
+          constructor
+          · intro ⟨a, ha⟩; cases ha
+          · intro h
+            by_cases hb : (f.base != BaseType.int) = true
+            · simp only [hb, if_true] at hlo
+              have hx := List.find?_some hlo
+              have hm := List.mem_of_find?_eq_some hlo
+              have hv : v ∈ specNumbers e.variants none := by
+                rw [← hnum]; exact List.mem_map.2 ⟨_, hm, rfl⟩
+              have hbase : f.base ≠ .int := by
+                intro hh; rw [hh] at hb; simp at hb
+              have := h.nonneg hbase v hv
+              simp only [decide_eq_true_eq] at hx
+              omega
+            · simp only [hb, if_false] at hlo; cases hlo
+        | none =>
+          have hnonneg : f.base ≠ .int → ∀ n ∈ specNumbers e.variants none, 0 ≤ n := by
+            intro hbase n hn
+            have hb : (f.base != BaseType.int) = true := by
+              cases hh : f.base <;> simp_all
+            simp only [hb, if_true] at hlo
+            rw [← hnum] at hn
+            obtain ⟨x, hx, rfl⟩ := List.mem_map.1 hn
+            have := (find_none_iff _ seen).1 hlo x hx
+            simp only [decide_eq_false_iff_not, Int.not_lt] at this
+            exact this
+          simp only
+          by_cases hdef : countDefault e.variants ≥ 2
+          · simp only [hdef, if_true]
+            constructor
+            · intro ⟨a, ha⟩; cases ha
+            · intro h; have := h.oneDefault; omega
+          · simp only [hdef, if_false]
+            by_cases hca : countCatchAll e.variants ≥ 2
+            · simp only [hca, if_true]
+              constructor
+              · intro ⟨a, ha⟩; cases ha
+              · intro h; have := h.oneCatchAll; omega
+            · simp only [hca, if_false]
+              have hcov := bitsCovered_iff (2 ^ f.width - 1) (seen.map (·.1))
+                (by have : (0 : Int) < 2 ^ f.width := Int.pow_pos (by omega); omega)
+              rw [hnum] at hcov
+              by_cases hfb : hasFallback e.variants = true
+              · simp only [hfb, Bool.true_or, if_true]
+                have : ((GenStyle.infallible f.width == GenStyle.fallible) && !useTry) = false := by
+                  simp
+                simp only [this, Bool.false_eq_true, if_false]
+                exact ⟨fun _ => ⟨hne', hdist, hfits, hnonneg, by omega, by omega, Or.inr (Or.inl hfb)⟩,
+                       fun _ => ⟨_, rfl⟩⟩
+              · have hfb' : hasFallback e.variants = false := by
+                  cases h : hasFallback e.variants <;> simp_all
+                simp only [hfb', Bool.false_or]
+                by_cases hc : bitsCovered (2 ^ f.width - 1) (specNumbers e.variants none) = true
+                · simp only [hnum, hc, if_true]
+                  have : ((GenStyle.infallible f.width == GenStyle.fallible) && !useTry) = false := by
+                    simp
+                  simp only [this, Bool.false_eq_true, if_false]
+                  exact ⟨fun _ => ⟨hne', hdist, hfits, hnonneg, by omega, by omega,
+                                   Or.inr (Or.inr (hcov.1 hc))⟩, fun _ => ⟨_, rfl⟩⟩
+                · simp only [hnum, hc, if_false]
+                  cases useTry with
+                  | true =>
+                    simp only [Bool.not_true, Bool.and_false, Bool.false_eq_true, if_false]
+                    exact ⟨fun _ => ⟨hne', hdist, hfits, hnonneg, by omega, by omega, Or.inl rfl⟩,
+                           fun _ => ⟨_, rfl⟩⟩
+                  | false =>
+                    constructor
+                    · intro ⟨a, ha⟩; simp at ha
+                    · intro h
+                      rcases h.total with h | h | h
+                      · cases h
+                      · rw [hfb'] at h; cases h
+                      · exact absurd (hcov.2 h) hc
+    · simp only [hd, Bool.not_false, if_true]
+      constructor
+      · intro ⟨a, ha⟩; cases ha
+      · intro h
+        have : duplicatesBy dupKey seen [] [] = [] := by
+          apply (duplicatesBy_nil_iff dupKey seen []).2
+          refine ⟨fun x _ => by simp, ?_⟩
+          rw [hkeys]; exact h.distinct
+        exact absurd (by rw [this]; rfl) hd
+
+/-- Non-vacuity: a two-bit enum `A, B = 2, C = default` is well formed. -/
+example : EnumOk 2 .uint
+    { name := "E", variants := [{ name := "A", value := .unspecified }, { name := "B", value := .specified 2 },
+                                 { name := "C", value := .default }] } false :=
+  (enum_accept_iff "R"
+    { name := "f", access := .rw, base := .uint, start := 0, stop := 2 } _ false (by decide)).1 ⟨_, rfl⟩
+
 end DDV.Props.C15
